@@ -303,7 +303,9 @@ class H5Group:
                     igrp.attrs.modify("entity_id", np.bytes_(id_))
             id_ = util.create_id()
             grp.attrs.modify("entity_id", np.bytes_(id_))
-            grp.visititems(change_id)
+            if hasattr(grp, "visititems"):
+                # a copied Property is a dataset and has no members
+                grp.visititems(change_id)
         return grp
 
     @property
